@@ -569,6 +569,7 @@ type Prog struct {
 	Vars    []string `json:"vars"`  // evaluated after all methods
 	Sites   []Site   `json:"sites"`
 	Comment string   `json:"comment,omitempty"`
+	Imports []string `json:"imports,omitempty"` // packages imported besides fmt, sort, strconv (each must be used by the declarations)
 	// Pending: corpus program holding the exact input of a PROPOSED finding (fix or known-finding entry not yet
 	// integrated): its failures are reported only once the site key is listed in known_findings.json, until then they
 	// are counted in the evidence (extra.proposed_finding_reproduced)
@@ -622,7 +623,11 @@ func (h *Hier) prog(name string) *Prog {
 // Go source of the package (compiled oracle and go/types); sites limited to `only` (nil = all)
 func (p *Prog) goSource(pkg string, only map[int]bool) string {
 	var sb strings.Builder
-	fmt.Fprintf(&sb, "package %s\n\nimport (\n\t\"fmt\"\n\t\"sort\"\n\t\"strconv\"\n)\n\nvar _ = fmt.Sprint\nvar _ sort.Interface\nvar _ = strconv.Itoa\n\n", pkg)
+	extra := ""
+	for _, im := range p.Imports {
+		extra += fmt.Sprintf("\t%q\n", im)
+	}
+	fmt.Fprintf(&sb, "package %s\n\nimport (\n\t\"fmt\"\n\t\"sort\"\n\t\"strconv\"\n"+extra+")\n\nvar _ = fmt.Sprint\nvar _ sort.Interface\nvar _ = strconv.Itoa\n\n", pkg)
 	for _, group := range [][]string{p.Types, p.Decls, p.Late, p.Vars} {
 		for _, s := range group {
 			sb.WriteString(s)
